@@ -60,6 +60,33 @@ class Unsupported(Exception):
     pass
 
 
+class Hang(BaseException):
+    """a call into mako did not return within its time limit (not an `Exception`: it must not be mistaken for an
+    exception raised by the code under test; the stream that met it reports it and stops)"""
+
+
+class time_limit:
+    """`with time_limit(seconds):` - raises Hang in the main thread when the body runs longer (SIGALRM based; a hang
+    of the implementation is a finding, it must not hang the check)"""
+
+    def __init__(self, seconds):
+        self.seconds = seconds
+
+    def _fire(self, sig, frm):
+        raise Hang("no result after %.0f s" % self.seconds)
+
+    def __enter__(self):
+        import signal
+        self.old = signal.signal(signal.SIGALRM, self._fire)
+        signal.setitimer(signal.ITIMER_REAL, self.seconds)
+
+    def __exit__(self, *exc):
+        import signal
+        signal.setitimer(signal.ITIMER_REAL, 0)
+        signal.signal(signal.SIGALRM, self.old)
+        return False
+
+
 # =========================================================================== AST -> wire
 
 def S(s):
@@ -528,7 +555,8 @@ def impl_print(node):
     """('ok', text) or ('exc', class name)"""
     from mako import pyparser
     try:
-        return ("ok", pyparser.ExpressionGenerator(node).value())
+        with time_limit(10):
+            return ("ok", pyparser.ExpressionGenerator(node).value())
     except RecursionError:
         raise
     except Exception as e:
@@ -947,7 +975,8 @@ def impl_identifiers(src):
     """(declared, undeclared) of mako.ast.PythonCode, or ('exc', class)"""
     from mako import ast as mast
     try:
-        pc = mast.PythonCode(src, source="", lineno=1, pos=0, filename="t")
+        with time_limit(10):
+            pc = mast.PythonCode(src, source="", lineno=1, pos=0, filename="t")
     except RecursionError:
         raise
     except Exception as e:
@@ -1509,8 +1538,13 @@ def template_eval(slot, src, strict=False):
             return ("skip", "both quote characters")
         text = re.sub(r'(name|args|filter)="([^"]*%s[^"]*)"' % re.escape(src), lambda m: "%s='%s'" % (m.group(1), m.group(2)), text)
     try:
-        t = Template(text, strict_undefined=strict)
-        out = t.render()
+        try:
+            with time_limit(10):
+                t = Template(text, strict_undefined=strict)
+                out = t.render()
+        except Hang as e:
+            e.case = text
+            raise
         return ("ok", out.rsplit("@@", 1)[-1])
     except RecursionError:
         raise
@@ -1777,7 +1811,14 @@ def corr_whitespace(ctx, blocks):
     outs = drv.ask_many(["py adjust " + enc(t) for t, _ in texts])
     for (t, m), o in zip(texts, outs):
         st["cases"] += 1
-        want = pygen.adjust_whitespace(t)
+        try:
+            with time_limit(10):
+                want = pygen.adjust_whitespace(t)
+        except Hang as e:
+            ctx.disagree("corr.adjust-whitespace", t, dec(o) if o != "bad-args" else o, "adjust_whitespace: " + str(e))
+            ctx.violation("remargin-does-not-terminate", {"input": t}, "pygen.adjust_whitespace(%r) did not return" % t,
+                          "corr.adjust-whitespace")
+            break
         ctx.branch("adjust:margin:" + ("random-text" if m is None else repr(m)))
         if o != enc(want):
             ctx.disagree("corr.adjust-whitespace", t, dec(o) if o != "bad-args" else o, want)
@@ -1789,7 +1830,12 @@ def corr_whitespace(ctx, blocks):
     outs = drv.ask_many(reqs)
     for i, ((t, m), o) in enumerate(zip(texts, outs)):
         st2["cases"] += 1
-        want = impl_flush(i % 4, t)
+        try:
+            with time_limit(10):
+                want = impl_flush(i % 4, t)
+        except Hang as e:
+            ctx.disagree("corr.flush-adjusted-lines", {"input": t, "indent": i % 4}, o, "PythonPrinter: " + str(e))
+            break
         got = "".join(dec(x) + "\n" for x in ([] if o == "[]" else o.split(" "))) if o != "bad-args" else o
         if got != want:
             ctx.disagree("corr.flush-adjusted-lines", {"input": t, "indent": i % 4}, got, want)
@@ -1874,7 +1920,12 @@ def native_exec(src, names):
 def template_exec(text):
     from mako.template import Template
     try:
-        return ("ok", Template(text).render().strip("\n"))
+        try:
+            with time_limit(10):
+                return ("ok", Template(text).render().strip("\n"))
+        except Hang as e:
+            e.case = text
+            raise
     except RecursionError:
         raise
     except Exception as e:
@@ -2333,19 +2384,28 @@ def run(ctx):
     ctx.sample({"expression": exprs[len(CORPUS_EXPRS) + 1][0]})
     ctx.sample({"block": blocks[len(CORPUS_BLOCKS) + 1][0]})
     ctx.sample({"executable block at margin 4": "\n".join(with_margin(execs[0][0], "    "))})
+    def stream(name, fn, *a):
+        ctx.log(name)
+        try:
+            fn(ctx, *a)
+        except Hang as e:
+            # the implementation looped on some input of this stream: that is a finding, and the stream ends here
+            ctx.violation("does-not-terminate", {"input": getattr(e, "case", None), "stream": name},
+                          "a call into mako did not return: %s" % e, name)
     try:
-        corr_table(ctx)
-        ctx.log("corr.print"); corr_print(ctx, exprs)
-        ctx.log("corr.guards"); corr_guards(ctx, exprs)
-        ctx.log("corr.identifiers"); corr_ident(ctx, blocks)
-        ctx.log("corr.whitespace"); corr_whitespace(ctx, execs)
-        corr_flags(ctx, execs)
+        stream("corr.precedence-table", corr_table)
+        stream("corr.print", corr_print, exprs)
+        stream("corr.guards", corr_guards, exprs)
+        stream("corr.identifiers", corr_ident, blocks)
+        stream("corr.whitespace", corr_whitespace, execs)
+        stream("corr.flags", corr_flags, execs)
     finally:
-        ctx.log("oracle.reemit"); oracle_reemit(ctx, exprs[: (1200 if q else 8000)])
-        ctx.log("oracle.template-values"); oracle_template_values(ctx, 150 if q else 1500)
-        ctx.log("oracle.blocks"); oracle_blocks(ctx, execs[: (200 if q else 2000)] + execs[n_exec: n_exec + (30 if q else 300)])
-        ctx.log("oracle.identifiers"); oracle_identifiers(ctx, blocks[: (800 if q else 6000)])
-        ctx.log("oracle.strict"); oracle_strict_undefined(ctx, parse_all(CORPUS_BLOCKS, "exec") + gen_blocks(ctx, 150 if q else 1000, expr_depth=2))
+        stream("oracle.reemit", oracle_reemit, exprs[: (1200 if q else 8000)])
+        stream("oracle.template-values", oracle_template_values, 150 if q else 1500)
+        stream("oracle.blocks", oracle_blocks, execs[: (200 if q else 2000)] + execs[n_exec: n_exec + (30 if q else 300)])
+        stream("oracle.identifiers", oracle_identifiers, blocks[: (800 if q else 6000)])
+        stream("oracle.strict", oracle_strict_undefined,
+               parse_all(CORPUS_BLOCKS, "exec") + gen_blocks(ctx, 150 if q else 1000, expr_depth=2))
 
 
 def replay(ctx, data):
@@ -2361,6 +2421,22 @@ def replay(ctx, data):
         return False
     print("replaying site=%s case=%r" % (site, case))
     inp = case.get("input") if isinstance(case, dict) else case
+    if site.endswith("does-not-terminate"):
+        from mako import pygen
+        from mako.template import Template
+        try:
+            with time_limit(10):
+                if site.startswith("remargin"):
+                    print("adjust_whitespace ->", repr(pygen.adjust_whitespace(inp)))
+                else:
+                    print("render ->", repr(Template(inp).render()))
+            return True
+        except Hang as e:
+            print("did not return:", e)
+            return False
+        except Exception as e:
+            print("raised", type(e).__name__, e)
+            return True
     if site.startswith("remargin"):
         text = block_template(case["variant"], inp.split("\n"), case["margin"], case["names"])
         got, want = template_exec(text), native_exec(case["native_source"], case["names"])
